@@ -2,6 +2,7 @@ package props
 
 import (
 	"bytes"
+	"compress/gzip"
 	"context"
 	"errors"
 	"fmt"
@@ -469,6 +470,71 @@ func C04(r *h.Run) {
 				r.Fail(h.Failure{Key: "write/zero-code", Family: "request_write_fails", What: "failure with the zero code", Input: in})
 			}
 			r.Sample("request_write_fails", map[string]any{"in": in, "send_err": fmt.Sprint(sendErr), "recv_err": fmt.Sprint(recvErr)})
+		}
+	}
+
+	// ---- unary Connect with a COMPRESSED body that is cut, the transport reporting a clean end (a
+	// close-delimited HTTP/1.x body): the end marker of the compressed stream is the only thing
+	// that says the body is complete. Every strict prefix fails, on the client and in the handler ----
+	{
+		msg := append([]byte("payload "), bytes.Repeat([]byte("0123456789abcdef"), 12)...)
+		msg = append(msg, []byte(" the tail that a cut must not lose")...)
+		var zb bytes.Buffer
+		zw := gzip.NewWriter(&zb)
+		_, _ = zw.Write(msg)
+		_ = zw.Close()
+		full := zb.Bytes()
+		// (cut 0 is left out: an EMPTY body is the zero-valued message in this protocol, whatever
+		// the encoding header says — the documented zero-length shortcut, modelled in Envelope.v)
+		for cut := 1; cut <= len(full); cut++ {
+			if !r.Thorough() && cut > 12 && cut < len(full)-12 && cut%5 != 0 {
+				continue
+			}
+			body := full[:cut]
+			// client side
+			canned := &h.CannedClient{Build: func(*http.Request) (*http.Response, error) {
+				hdr := http.Header{"Content-Type": {"application/toy"}, "Content-Encoding": {"gzip"}}
+				return h.NewResponse(200, hdr, h.NewChunkBody([][]byte{body}, h.FinCleanEOF), nil), nil
+			}}
+			var got []byte
+			var cerr error
+			p := safely(func() {
+				res, err := connect.NewClient[h.Raw, h.Raw](canned, "http://verif.local/verif.Svc/M", connect.WithCodec(h.ToyCodec{})).CallUnary(context.Background(), connect.NewRequest(&h.Raw{B: []byte("q")}))
+				cerr = err
+				if err == nil {
+					got = res.Msg.B
+				}
+			})
+			in := map[string]any{"proto": "connect", "kind": "unary", "side": "client", "content_encoding": "gzip", "compressed_body_bytes": len(full), "cut_after": cut, "end": "clean EOF"}
+			r.Eval("compressed_unary_cut", fmt.Sprint("client", cut))
+			if p != nil {
+				r.Fail(h.Failure{Key: "terminator/hang-or-panic", Family: "compressed_unary_cut", What: fmt.Sprint("panic: ", p), Input: in})
+			} else if cut < len(full) && cerr == nil {
+				r.Fail(h.Failure{Key: "cut/connect-unary-success-on-cut-body", Family: "compressed_unary_cut", What: "a unary call succeeded on a compressed response body that was cut", Input: in, Actual: map[string]any{"message_bytes": len(got), "of": len(msg)}})
+			} else if cut == len(full) && (cerr != nil || !bytes.Equal(got, msg)) {
+				r.Fail(h.Failure{Key: "cut/complete-body-refused", Family: "compressed_unary_cut", What: "the complete compressed body is not accepted", Input: in, Actual: fmt.Sprint(cerr)})
+			}
+			// handler side
+			ran := false
+			handler := connect.NewUnaryHandler("/verif.Svc/M", func(_ context.Context, req *connect.Request[h.Raw]) (*connect.Response[h.Raw], error) {
+				ran = true
+				got = req.Msg.B
+				return connect.NewResponse(&h.Raw{B: []byte("ok")}), nil
+			}, connect.WithCodec(h.ToyCodec{}))
+			req := httptest.NewRequest("POST", "/verif.Svc/M", nil)
+			req.Body = h.NewChunkBody([][]byte{body}, h.FinCleanEOF)
+			req.ContentLength = -1
+			req.Header.Set("Content-Type", "application/toy")
+			req.Header.Set("Content-Encoding", "gzip")
+			rec := httptest.NewRecorder()
+			p = safely(func() { handler.ServeHTTP(rec, req) })
+			in = map[string]any{"proto": "connect", "kind": "unary", "side": "handler", "content_encoding": "gzip", "compressed_body_bytes": len(full), "cut_after": cut, "end": "clean EOF"}
+			r.Eval("compressed_unary_cut", fmt.Sprint("handler", cut))
+			if p != nil {
+				r.Fail(h.Failure{Key: "terminator/hang-or-panic", Family: "compressed_unary_cut", What: fmt.Sprint("panic: ", p), Input: in})
+			} else if cut < len(full) && (ran || rec.Code == 200) {
+				r.Fail(h.Failure{Key: "cut/connect-unary-success-on-cut-body", Family: "compressed_unary_cut", What: "a unary handler ran (or answered 200) on a compressed request body that was cut", Input: in, Actual: map[string]any{"status": rec.Code, "user_code_ran": ran}})
+			}
 		}
 	}
 
